@@ -291,13 +291,13 @@ class Impute(EnvironmentFilter):
         start = time.time()
         if is_dense:
             if self._stat in ["mean","median"]:
-                imputable_cols = [i for i,v in enumerate(first['context']) if isinstance(v,(int,float) or v is None)]
+                imputable_cols = [i for i,v in enumerate(first['context']) if isinstance(v,(int,float)) or v is None]
             else:
                 imputable_cols = list(range(len(first['context'])))
 
         elif is_sparse:
             if self._stat in ['mean','median']:
-                unimputable_cols = {k for k,v in first['context'].items() if not isinstance(v,(int,float) or v is None)}
+                unimputable_cols = {k for k,v in first['context'].items() if not (isinstance(v,(int,float)) or v is None)}
             else:
                 unimputable_cols = {}
 
@@ -352,6 +352,9 @@ class Impute(EnvironmentFilter):
                     if self._miss and any([c is None for c in col]):
                         impute_binary[k] = f"{k}_is_missing"
                         binary_template[f"{k}_is_missing"] = 0
+            #a key that is absent from every fitting context is a column of zeros
+            fitted_keys = set(unimputed.keys()) | set(unimputable_cols)
+            default_imputation = self._get_imputation([0]*len(using_interactions))
 
         elif is_value:
             imputations = self._get_imputation(unimputed)
@@ -376,10 +379,12 @@ class Impute(EnvironmentFilter):
 
                 is_missing = binary_template.copy()
                 for k,v in context.items():
-                    if v is None:
+                    if v is None and k in imputations:
                         context[k] = imputations[k]
                         if k in impute_binary:
                             is_missing[impute_binary[k]] = 1
+                    elif v is None and k not in fitted_keys and default_imputation is not None:
+                        context[k] = default_imputation
                 context.update(is_missing)
 
             elif is_value:
